@@ -228,6 +228,11 @@ impl<Data> IoLoopInner for LoopInner<'_, Data> {
         if let Ok(slot) = self.sources.borrow_mut().get_mut(token.inner) {
             slot.source = None;
         }
+        // The fd may outlive the adapter (`into_inner()`, borrowed fd): it must not stay
+        // registered with a key that now belongs to nobody.
+        if let Ok(poll) = self.poll.try_borrow() {
+            let _ = poll.unregister(unsafe { BorrowedFd::borrow_raw(dispatcher.borrow().fd) });
+        }
     }
 }
 
